@@ -155,6 +155,9 @@ func RuleSpecs(thorough bool) ([]*spec.Spec, map[string][]RuleCase) {
 			{"PlainOneofWords", "plain_oneof", spec.M("PlainOneofWords", append(common(), txt(), img())...).WithOneof(&spec.Oneof{Name: "content"})},
 			{"UnwrapSiblingWords", "unwrap_sibling", spec.M("UnwrapSiblingWords", append(common(), spec.Msg("bars_by_key", "BarList").Map())...)},
 		}
+		// required on fields with explicit presence: proto3 optional and members of a real oneof
+		presence := spec.M("PresenceWords", spec.F("nick_name", "string").Opt().R("required:true"), spec.F("plain_name", "string").R("required:true"), spec.F("free_text", "string").Opt(),
+			spec.F("email_addr", "string").In("contact").R("required:true"), spec.F("phone_no", "string").In("contact")).WithOneof(&spec.Oneof{Name: "contact"})
 		msgs := []*spec.Message{spec.M("TextContent", spec.F("body", "string")), spec.M("ImageContent", spec.F("url", "string")), spec.M("BarList", spec.F("values", "int32").Rep().Unw()), spec.M("Out", spec.F("ok", "bool"))}
 		svc := spec.Svc("RuleShapeService", "/rs")
 		for _, sh := range shapes {
@@ -165,6 +168,15 @@ func RuleSpecs(thorough bool) ([]*spec.Spec, map[string][]RuleCase) {
 				rules := map[string]string{"account_id": "required:true", "display_name": "string:{min_len:2}", "unit_count": "int32:{gt:0}", "currency_code": "string:{max_len:5}", "max_items": "required:true"}[f.Name]
 				cs = append(cs, RuleCase{Msg: sh.name, Field: f.Name, Kind: f.Kind, Label: rule + ",shape=" + sh.key + ",field=" + f.Name, Rules: rules})
 			}
+		}
+		msgs = append(msgs, presence)
+		svc.Methods = append(svc.Methods, spec.RPC("CheckPresenceWords", "PresenceWords", "Out", "POST", "/presence"))
+		for _, fn := range []string{"nick_name", "plain_name", "free_text", "email_addr", "phone_no"} {
+			rule, rules := "rule=required", "required:true"
+			if fn == "free_text" || fn == "phone_no" {
+				rule, rules = "rule=none", ""
+			}
+			cs = append(cs, RuleCase{Msg: "PresenceWords", Field: fn, Kind: "string", Label: rule + ",shape=presence,field=" + fn, Rules: rules})
 		}
 		f := &spec.File{Messages: msgs, Services: []*spec.Service{svc}}
 		out = append(out, withCell(spec.One("rules_shapes", f), "rules/kind=shapes", "extended", "valid", "rules"))
